@@ -1769,7 +1769,7 @@ func c02FixedCases(name string) []c02FixedCase {
 		return []c02FixedCase{
 			{files: [][]*vidx.SRec{f}, search: &c02Search{raw: "@a:cport:1001 @b:cport:1002 id:@a:id@ id:@b:id@", limit: 100, accept: only()}},
 			{files: [][]*vidx.SRec{f}, search: &c02Search{raw: "@a:cport:1001 @b:cport:1002 id:@a:id@+@b:id@", limit: 100, accept: only(3)}},
-			{files: [][]*vidx.SRec{f}, search: &c02Search{raw: "@a:cport:1001 @b:cport:9 id:@a:id@", limit: 100, accept: only()}},
+			{files: [][]*vidx.SRec{f}, search: &c02Search{raw: "@a:cport:1001 @b:cport:9 id:@a:id@ cport:@b:cport@:", limit: 100, accept: only()}},
 			{files: [][]*vidx.SRec{f}, search: &c02Search{raw: "@b:cport:1002 id:@b:id@: @a:cport:1001 -id:@a:id@", limit: 100, accept: only(2, 3)}},
 		}
 	}
